@@ -726,6 +726,67 @@ example (st₂ : Store) (env : Spec.Env) :
 example : Spec.valid (exSpecEnv exTree) 4 0 (.obj [("a", .num 1), ("b", .str "xy")]) = some true := by decide
 example : Spec.valid (exSpecEnv exTree) 4 0 (.obj [("a", .num 1), ("b", .str "xy"), ("c", .null)]) = some false := by decide
 
+/-! ### `roundtrip_tree_meaning` is not vacuous: a tree WITH `$ref` (by pointer and by `$anchor`), `$dynamicRef`,
+  `$dynamicAnchor`, `$id`; `$defs` is listed in descending key order, so it comes back reordered -/
+
+def exRT : Store := #[
+  { id := "http://a/root.json", type := "object", ref := "#/$defs/len", dynamicRef := "#d", allOf := some [4],
+    properties := some [("a", 1)], defs := some [("pos", 3), ("len", 2)], required := some ["a"] },   -- 0
+  { type := "string" },                                                                              -- 1
+  { minProperties := some 1, dynamicAnchor := "d" },                                                  -- 2
+  { anchor := "pos", maxProperties := some 2 },                                                       -- 3
+  { ref := "#pos" }]                                                                                  -- 4
+def exRTEnv : Go.Env := { st := exRT, reOk := fun _ => true, loader := none }
+
+theorem exRT_wf : TreeWF exRT 0 := by decide
+theorem exRT_keys : Go.RPerm.StoreKeysNodup exRT := Go.RPerm.storeKeysNodup_of_check _ (by decide)
+theorem exRTEnv_noDocs : Go.RIso.NoDocs exRTEnv := fun _ _ _ h => nomatch h
+
+/-- the theorem applies … -/
+example : ∃ j id' st₂', Go.marshal exRT 0 = .ok j ∧ Go.unmarshal j #[] = .ok (id', st₂') ∧
+    ∀ (fuel : Nat) (base : String) (rs rs' : Go.Resolved), st₂'.size ≤ 1000000000 →
+      Go.resolve exRTEnv fuel 0 base = .ok rs → Go.resolve { exRTEnv with st := st₂' } fuel id' base = .ok rs' →
+      rs.draft = rs'.draft ∧ rs.log = rs'.log ∧
+        ∀ (reMatch : String → String → Bool) (vfuel : Nat) (inst : Json), Json.WF inst = true →
+          Inv.OutSim (Spec.evalFuel (Go.RIso.specOf exRT rs reMatch) vfuel [] 0 inst)
+              (Spec.evalFuel (Go.RIso.specOf st₂' rs' reMatch) vfuel [] id' inst) ∧
+            Spec.valid (Go.RIso.specOf exRT rs reMatch) vfuel 0 inst =
+              Spec.valid (Go.RIso.specOf st₂' rs' reMatch) vfuel id' inst := by
+  have hok : (Go.marshal exRT 0).isOk = true := by decide +kernel
+  cases hj : Go.marshal exRT 0 with
+  | ok j =>
+    obtain ⟨id', st₂', hu, h⟩ := roundtrip_tree_meaning exRT 0 j #[] exRT_wf hj exRT_keys (by decide) exRTEnv
+      exRTEnv_noDocs
+    exact ⟨j, id', st₂', rfl, hu, h⟩
+  | fuel => rw [hj] at hok; cases hok
+  | panic => rw [hj] at hok; cases hok
+  | err => rw [hj] at hok; cases hok
+
+/-- … both Resolve calls do return normally: the original records (schema, `$ref` target, `$dynamicRef` target) … -/
+example : ((Go.resolve exRTEnv 1 0 "").bind fun rs => .ok (rs.infos.map fun (e : NodeId × Go.Info) =>
+      (e.1, e.2.resolvedRef, e.2.resolvedDynamicRef))) =
+    .ok [(0, some 2, some 2), (3, none, none), (2, none, none), (4, some 3, none), (1, none, none)] := by
+  decide +kernel
+
+/-- … and the tree read back (root 4; "a" ↦ 0, len ↦ 1, pos ↦ 2, allOf[0] ↦ 3): the same tables up to the renaming -/
+example : (match Go.marshal exRT 0 with
+    | .ok j => match Go.unmarshal j #[] with
+      | .ok (id', st') => (Go.resolve { exRTEnv with st := st' } 1 id' "").bind fun rs =>
+          .ok (rs.infos.map fun (e : NodeId × Go.Info) => (e.1, e.2.resolvedRef, e.2.resolvedDynamicRef))
+      | _ => .err
+    | _ => .err) =
+    .ok [(4, some 1, some 1), (1, none, none), (2, none, none), (3, some 2, none), (0, none, none)] := by
+  decide +kernel
+
+/-- … and the verdicts are defined, use the references, and are not all the same -/
+example : (match Go.resolve exRTEnv 1 0 "" with
+    | .ok rs =>
+      [Spec.valid (Go.RIso.specOf exRT rs fun _ _ => false) 4 0 (.obj [("a", .str "x")]),
+       Spec.valid (Go.RIso.specOf exRT rs fun _ _ => false) 4 0 (.obj [("a", .str "x"), ("b", .null), ("c", .null)]),
+       Spec.valid (Go.RIso.specOf exRT rs fun _ _ => false) 4 0 (.obj [("a", .num 1)])]
+    | _ => []) = [some true, some false, some false] := by
+  decide +kernel
+
 /-! why the results are compared up to the ORDER of the evaluated-property list (`Inv.OutSim`) and not by equality: the
     Spec lists evaluated property names in the order the keywords produce them, and `dependentSchemas` — a Go map, written
     in ascending key order — comes back sorted.  Below b ↦ {properties: {x}}, a ↦ {properties: {y}}: the original lists
